@@ -1,6 +1,6 @@
 package main
 
-// Driver for spec/CmdAlgebra.tla (C18): every function registered for every feature type x 9 command shapes through the
+// Driver for spec/CmdAlgebra.tla (C18): every function registered for every feature type x 13 command shapes through the
 // real build -> encode -> decode -> recognise chain; value-level round trip of reflectively generated values.
 
 import (
@@ -31,15 +31,18 @@ var allFeatureTypes = []model.FeatureTypeType{
 }
 
 type CmdLine struct {
-	T        string `json:"t"`
-	Fn       string `json:"fn"`
-	Shape    string `json:"shape"`
-	RFn      string `json:"rfn"`
-	Payload  bool   `json:"payload"`
-	Partial  bool   `json:"partial"`
-	Delete   bool   `json:"delete"`
-	Sel      bool   `json:"sel"`
-	Elem     bool   `json:"elem"`
+	T       string `json:"t"`
+	Fn      string `json:"fn"`
+	Shape   string `json:"shape"`
+	RFn     string `json:"rfn"`
+	Payload bool   `json:"payload"`
+	Partial bool   `json:"partial"`
+	Delete  bool   `json:"delete"`
+	// per filter: 0 = absent, 1 = present and equal to what was given, 2 = present but different / not given
+	PSel     int    `json:"psel"`
+	PElem    int    `json:"pelem"`
+	DSel     int    `json:"dsel"`
+	DElem    int    `json:"delem"`
 	FilterFn bool   `json:"filterfn"`
 	Panic    string `json:"panic"`
 	Ok       bool   `json:"ok"`
@@ -213,7 +216,9 @@ func cmdRun(args []string) {
 		must(enc.Encode(CmdLine{T: "table", Ok: ok, What: what}))
 		n++
 	}
-	shapes := []string{"read", "read+sel", "read+elem", "reply", "full", "partial", "partial+sel", "delete+sel", "delete+elem"}
+	shapes := []string{"read", "read+sel", "read+elem", "reply", "full", "partial", "partial+sel", "delete+sel", "delete+elem",
+		// combinations (what FeatureLocal.UpdateData passes on when it notifies)
+		"delete+selelem", "delete+sel&partial+sel", "delete+elem&partial+sel", "delete+selelem&partial+sel"}
 	for _, fn := range fns {
 		fd := fds[fn]
 		selF, hasSel := filterFieldFor(fn, "Selectors")
@@ -221,7 +226,7 @@ func cmdRun(args []string) {
 		// a value for the function, so that reply / notify carry a payload
 		seed := 1
 		for _, shape := range shapes {
-			if (strings.HasSuffix(shape, "+sel") && !hasSel) || (strings.HasSuffix(shape, "+elem") && !hasEl) {
+			if (strings.Contains(shape, "sel") && !hasSel) || (strings.Contains(shape, "elem") && !hasEl) {
 				continue
 			}
 			line := CmdLine{T: "cmd", Fn: fn, Shape: shape}
@@ -232,10 +237,10 @@ func cmdRun(args []string) {
 					}
 				}()
 				var sel, el any
-				if strings.HasSuffix(shape, "+sel") {
+				if strings.Contains(shape, "sel") {
 					sel = firstFieldSet(selF.Type.Elem()).Interface()
 				}
-				if strings.HasSuffix(shape, "+elem") {
+				if strings.Contains(shape, "elem") {
 					el = firstFieldSet(elF.Type.Elem()).Interface()
 				}
 				var cmd model.CmdType
@@ -258,6 +263,14 @@ func cmdRun(args []string) {
 					cmd = fd.NotifyOrWriteCmdType(sel, nil, false, nil)
 				case "delete+elem":
 					cmd = fd.NotifyOrWriteCmdType(nil, nil, false, el)
+				case "delete+selelem":
+					cmd = fd.NotifyOrWriteCmdType(sel, nil, false, el)
+				case "delete+sel&partial+sel":
+					cmd = fd.NotifyOrWriteCmdType(sel, sel, false, nil)
+				case "delete+elem&partial+sel":
+					cmd = fd.NotifyOrWriteCmdType(nil, sel, false, el)
+				case "delete+selelem&partial+sel":
+					cmd = fd.NotifyOrWriteCmdType(sel, sel, false, el)
 				}
 				b, err := json.Marshal(cmd)
 				if err != nil {
@@ -277,7 +290,16 @@ func cmdRun(args []string) {
 				}
 				fp, fdl := back.ExtractFilter()
 				line.Partial, line.Delete = fp != nil, fdl != nil
-				for _, f := range []*model.FilterType{fp, fdl} {
+				cmp := func(got, given any) int {
+					if got == nil || isNilIface(got) {
+						return 0
+					}
+					if given != nil && normJSON(got) == normJSON(given) && reflect.TypeOf(got) == reflect.TypeOf(given) {
+						return 1
+					}
+					return 2
+				}
+				for i, f := range []*model.FilterType{fp, fdl} {
 					if f == nil {
 						continue
 					}
@@ -285,11 +307,10 @@ func cmdRun(args []string) {
 						if d.Function != nil && string(*d.Function) == fn {
 							line.FilterFn = true
 						}
-						if d.Selector != nil && sel != nil && normJSON(d.Selector) == normJSON(sel) && reflect.TypeOf(d.Selector) == reflect.TypeOf(sel) {
-							line.Sel = true
-						}
-						if d.Elements != nil && el != nil && normJSON(d.Elements) == normJSON(el) && reflect.TypeOf(d.Elements) == reflect.TypeOf(el) {
-							line.Elem = true
+						if i == 0 {
+							line.PSel, line.PElem = cmp(d.Selector, sel), cmp(d.Elements, el)
+						} else {
+							line.DSel, line.DElem = cmp(d.Selector, sel), cmp(d.Elements, el)
 						}
 					}
 				}
